@@ -729,11 +729,19 @@ func c10File(r *Run) {
 		return
 	}
 	nrec := 4 + rng.Intn(30)
+	// one file in four carries strings of 4 to 70 KiB (a few records only: the file is printed as a term)
+	long := rng.Intn(4) == 0 && g.contains(func(x *GT) bool { return x.Kind == "string" })
+	if long {
+		nrec = 4 + rng.Intn(4)
+		r.Count("B/very-long-strings")
+	}
 	var recs [][]byte
 	var wants []reflect.Value
 	var prev *Datum
 	for k := 0; k < nrec; k++ {
+		veryLongStrings = long
 		d := genDatum(rng, s)
+		veryLongStrings = false
 		if prev != nil && rng.Intn(3) == 0 {
 			d = prev // the same values again: consecutive records that repeat each other's strings
 			r.Count("B/repeated-record")
@@ -752,9 +760,15 @@ func c10File(r *Run) {
 		recs = append(recs, encodeDatum(s, d, genChoice(rng, s, d)))
 	}
 	codec := codecNames[rng.Intn(3)]
+	if long && rng.Intn(2) == 0 {
+		codec = "null" // the stored bytes are the record bytes: nothing is decompressed into a buffer of its own
+	}
 	ct := &Container{SchemaJSON: []byte(schemaJSON(s)), Codec: codec, Sync: randSync(rng)}
 	for k := 0; k < nrec; {
 		m := 1 + rng.Intn(min(nrec-k, 6))
+		if long {
+			m = min(1+rng.Intn(2), nrec-k) // several blocks: a later block reuses what an earlier one was read into
+		}
 		if rng.Intn(8) == 0 {
 			m = 0
 		}
